@@ -94,7 +94,7 @@ def check(run):
     _be(run, be)
     _plasma(run, pl)
     _r6_frames(run, prog)
-    run.include('C01', set(FILES) | {'cherab/core/plasma/node.pyx', 'cherab/core/plasma/model.pyx', 'cherab/core/utility/notify.py'}, 'the cached receiver species, rates and populations must follow changes of the plasma composition')
+    run.include('C01', set(FILES) | {'cherab/core/plasma/node.pyx', 'cherab/core/plasma/model.pyx', 'cherab/core/utility/notify.py', 'cherab/core/beam/model.pyx', 'cherab/core/beam/node.pyx'}, 'the cached receiver species, rates and populations must follow changes of the plasma composition')
     from ..cachekey import check_caches
     check_caches(run, [m_ for m_ in prog.modules.values() if m_.relpath in set(FILES) and not m_.name.endswith('#pxd')], 'C05-K', prog=prog)
 
